@@ -10,8 +10,8 @@ import json, os, random, sys
 sys.path.insert(0, os.path.join(os.path.dirname(os.path.abspath(__file__)), "..", "lib"))
 import vlib
 
-DOC2 = "subscription { s1 { id bad slow } s2 { id bad slow } }"
-DOC1 = "subscription { s1 { id bad slow } }"
+DOC2 = "subscription { s1 { id bad slow boom } s2 { id bad slow boom } }"
+DOC1 = "subscription { s1 { id bad slow boom } }"
 
 
 def body(c):
@@ -23,7 +23,7 @@ def body(c):
     if d.invariant_violated != "OwnErrorsOnly":
         raise vlib.ToolError("negative control failed: the shared-error-list model should violate OwnErrorsOnly")
     c.cov["design_counterexample_for_DevSharedErrors"] = True
-    ncmd = 5 if c.quick else 6
+    ncmd = 4 if c.quick else 5
     cfg = c.path("Gen.cfg")
     with open(cfg, "w") as f:
         f.write('CONSTANT Fields = {"s1", "s2"}\nCONSTANT MaxEvents = 2\nCONSTANT Dev = {}\nCONSTANT MaxCmds = %d\n'
@@ -47,7 +47,7 @@ def body(c):
         for _ in range(rng.randint(4, 14)):
             f = rng.choice(["s1", "s2"])
             if rng.random() < 0.6:
-                s.append(["arrive", f, rng.choice(["plain", "bad", "slow", "badslow"])])
+                s.append(["arrive", f, rng.choice(["plain", "bad", "slow", "badslow", "fatal", "badfatal"])])
             else:
                 s.append(["open", f, ""])
         rows.append({"flavour": rng.choice(["static", "dynamic"]), "doc": DOC2, "sched": s, "single": False})
